@@ -28,6 +28,7 @@ type fnResult struct {
 	obls    []*Obligation
 	prelude string
 	weak    string
+	sl      *slicer
 	err     string
 	abstracted []string
 	trusted []string
@@ -171,6 +172,7 @@ func verifyFunction(P *Program, db *SpecDB, R *Resolver, fs *FuncSpec, fn *ssa.F
 	res.obls = e.obls
 	res.prelude = e.prelude(true)
 	res.weak = e.prelude(false)
+	res.sl = e.newSlicer()
 	for k := range e.abstracted {
 		res.abstracted = append(res.abstracted, k)
 	}
@@ -314,7 +316,7 @@ func main() {
 				continue
 			}
 			idx++
-			jobs = append(jobs, job{o, &r.prelude, &r.weak, idx, r.interest})
+			jobs = append(jobs, job{o, &r.prelude, &r.weak, idx, r.interest, r.sl})
 		}
 	}
 	tEnc := time.Since(t0).Seconds() - tLoad
@@ -324,7 +326,9 @@ func main() {
 		}
 		return
 	}
+	tD0 := time.Now()
 	dischargeAll(jobs, opts, runtime.NumCPU())
+	tDischarge := time.Since(tD0).Seconds()
 	// vacuity: entry reach of each function + reach of each post obligation
 	vacChecked, vacOK := 0, 0
 	var vacuous []string
@@ -340,7 +344,11 @@ func main() {
 			wg.Add(1)
 			go func(r *fnResult, i int) {
 				defer wg.Done()
-				r.entryVerdict = checkReach(r.entryReach, r.weak, eopts, i)
+				w := r.weak
+				if r.sl != nil {
+					w = r.sl.query(false, r.entryReach.S)
+				}
+				r.entryVerdict = checkReach(r.entryReach, w, eopts, i)
 			}(r, idx)
 		}
 		wg.Wait()
@@ -392,7 +400,11 @@ func main() {
 			go func(i int, j *rjob) {
 				defer wg.Done()
 				defer func() { <-sem }()
-				j.v = checkReach(j.reach, j.r.weak, ropts, idx+1+i)
+				w := j.r.weak
+				if j.r.sl != nil {
+					w = j.r.sl.query(false, j.reach.S)
+				}
+				j.v = checkReach(j.reach, w, ropts, idx+1+i)
 			}(i, j)
 		}
 		wg.Wait()
@@ -532,6 +544,9 @@ func main() {
 		os.MkdirAll(filepath.Join(*verif, "evidence"), 0o755)
 		data, _ := json.MarshalIndent(ev, "", " ")
 		os.WriteFile(filepath.Join(*verif, "evidence", *property+".json"), data, 0o644)
+	}
+	if *verbose {
+		fmt.Printf("timing: discharge %.1fs wall\n", tDischarge)
 	}
 	fmt.Printf("property=%s tier=%s functions=%d obligations=%d discharged=%d violations=%d known=%d wall=%.1fs (load %.1fs, encode %.1fs, solver %.1fs cpu)\n",
 		*property, *tier, len(results), total, discharged, violations, len(knownHit), wall, tLoad, tEnc, solverTime)
